@@ -242,6 +242,19 @@ def fmt_qual(repo) -> str:
         return n
 
     cands = [m for m in sorted(self_calls(meths["pprint"])) if m in meths and m in self_calls(meths[m])]
+    if not cands:
+        # pprint() may reach it through private helpers (a generator producing the lines of every root)
+        seen, todo = {"pprint"}, ["pprint"]
+        while todo:
+            cur = todo.pop()
+            for m in sorted(self_calls(meths[cur])):
+                if m in meths and m not in seen:
+                    seen.add(m)
+                    todo.append(m)
+        rec = [m for m in sorted(seen) if m != "pprint" and m in self_calls(meths[m])]
+        direct_helpers = [m for m in sorted(self_calls(meths["pprint"])) if m in meths]
+        # the recursive method called by a helper pprint() calls directly
+        cands = [m for m in rec if any(m in self_calls(meths[h]) for h in direct_helpers)]
     if len(cands) > 1:
         # several recursive helpers: the formatter is the one whose result feeds the lines pprint() joins
         pp = meths["pprint"]
